@@ -163,6 +163,13 @@ pub fn plan(tier: &str) -> Plan {
     for sc in scenarios(false).into_iter().filter(|s| s.closer == Closer::StopDrainKill) {
         units.push(Unit::explore_split(Job::new(format!("fine/c03/{}", sc.name()), fine.clone(), Some(if thorough { 3 } else { 2 }), body(sc, oracle)), 8));
     }
+    // two concurrent requesters of the same kind: the request holds as soon as either call has returned
+    for kind in [Kind::Send, Kind::Local] {
+        for closer in [Closer::TwoKillers, Closer::TwoStoppers] {
+            let sc = Sc { kind, variant: Variant::Linked, site: Site::Handle, prog: P::Awaits, closer, senders: 2, child: false, pg_event: false, busy_sup: false, sup_drains: false, stale_unlink: false };
+            units.push(Unit::explore_split(Job::new(format!("fine/c03/{}", sc.name()), fine.clone(), Some(if thorough { 3 } else { 2 }), body(sc, oracle)), 8));
+        }
+    }
     Plan {
         property: "C03",
         units,
